@@ -82,7 +82,11 @@ def _install_solver_proxy(ils):
                 k = args[0]
                 seed = args[1] if len(args) > 1 else 0
                 if len(_state["solves"]) < k:
-                    status = real.UNKNOWN
+                    # a timed-out strategy: run the real solver with a vanishing deterministic budget
+                    self.parameters.num_workers = 1
+                    self.parameters.max_deterministic_time = 1e-9
+                    self.parameters.max_time_in_seconds = 0.001
+                    status = super().Solve(model, callback)
                 else:
                     self.parameters.num_workers = 1
                     self.parameters.random_seed = int(seed) & 0x7FFFFFFF
